@@ -6,6 +6,8 @@ for d in "$ROOT"/seeded/*/; do
   n=$(basename "$d")
   case "$n" in
     benign-*|legal-*) "$ROOT/tools/try_mutant.sh" "$n" "$d/patch.diff" C06 C07 C09 C10 C11 C12 C13 C18 ;;
+    hand-hang) "$ROOT/tools/try_mutant.sh" "$n" "$d/patch.diff" C07 ;;
+    hand-static) "$ROOT/tools/try_mutant.sh" "$n" "$d/patch.diff" C06 ;;
     *) t=$(echo "$n" | sed 's/^\(C[0-9][0-9]\).*/\1/'); "$ROOT/tools/try_mutant.sh" "$n" "$d/patch.diff" "$t" ;;
   esac
 done
